@@ -768,6 +768,13 @@ class Model:
         var_exp_list = ambset.mix_model.vars[1:]
         num_event = len(ambset.exp_constr)
 
+        def fit_rand(item):
+            # an expression built before a later rvar() has fewer random columns
+            if item.raffine.shape[1] >= num_rand:
+                return item.raffine
+            return RoAffine(item.raffine, item.affine,
+                            self.sup_model).fit_rand(num_rand)
+
         if isinstance(constr, ExpPWConstr):
             linears = []
             consts = []
@@ -782,7 +789,7 @@ class Model:
                     linears.append(piece.affine.linear)
                     const = piece.affine.const
                     consts.append(const.reshape((const.size, 1)))
-                    raffines.append(piece.raffine)
+                    raffines.append(fit_rand(piece))
         elif isinstance(constr, DecLinConstr):
             linears = [constr.linear]
             const = - constr.const
@@ -792,7 +799,7 @@ class Model:
             linears = [constr.affine.linear]
             const = constr.affine.const
             consts = [const.reshape([const.size, 1])]
-            raffines = [constr.raffine]
+            raffines = [fit_rand(constr)]
 
         ro_constr = []
         for i in range(linears[0].shape[0]):
